@@ -873,7 +873,9 @@ fn normalised_log(o: &Observed) -> Vec<String> {
     let mut out: Vec<String> = o
         .log
         .iter()
-        .filter(|l| !l.starts_with("@W w2"))
+        // requests for random bytes are left out as well: a program that starts threads of its own issues them from
+        // several threads at once, and where they fall among the other calls is the kernel's scheduling, not the plan
+        .filter(|l| !l.starts_with("@W w2") && !l.starts_with("@G"))
         .map(|l| {
             if l.starts_with("@END") {
                 l.split(' ').filter(|t| !t.starts_with("w2=")).collect::<Vec<_>>().join(" ")
